@@ -1046,7 +1046,10 @@ theorem deepCopyTo_reads {fs1 : FS} (hw : WF fs1) {g : String} {S : Path} {df : 
       cases e with
       | group o a =>
         simp only [hl] at h
-        exact placed_copy_reads hw h (fun h1 => copyOf_shift hg S h1.next) hr
+        by_cases hsoft : dstThroughSoft fs1 df dp = true
+        · simp [hsoft] at h
+        · simp only [hsoft, Bool.false_eq_true, if_false] at h
+          exact placed_copy_reads hw h (fun h1 => copyOf_shift hg S h1.next) hr
       | dataset c' => simp [hl] at h
       | soft t => simp [hl] at h
       | ext g' t => simp [hl] at h
@@ -1285,7 +1288,11 @@ theorem deepCopyTo_sub {fs1 : FS} (hw : WF fs1) {g : String} {S : Path} {df : St
   split at h
   · rw [← (Prod.mk.inj h).1]; exact ⟨Sub.refl _, OnlyFile.refl _ _⟩
   · split at h
-    · exact ⟨placeAt_sub hw h, placeAt_only h⟩
+    · by_cases hsoft : dstThroughSoft fs1 df dp = true
+      · simp only [hsoft, if_true] at h
+        rw [← (Prod.mk.inj h).1]; exact ⟨Sub.refl _, OnlyFile.refl _ _⟩
+      · simp only [hsoft, Bool.false_eq_true, if_false] at h
+        exact ⟨placeAt_sub hw h, placeAt_only h⟩
     · rw [← (Prod.mk.inj h).1]; exact ⟨Sub.refl _, OnlyFile.refl _ _⟩
 
 theorem copySame_sub {fs1 : FS} (hw : WF fs1) {sf : String} {sp dp : Path} {fs' : FS} {oc : Outcome}
@@ -1423,7 +1430,10 @@ theorem deepCopyTo_placed {fs1 : FS} (hw : WF fs1) {g : String} {S : Path} {df :
   · simp at h
   · rename_i hs hg
     split at h
-    · exact ⟨_, _, h, fun h1 => relWF_shift _ (relWF_getRegion (hw g hs hg) S)⟩
+    · by_cases hsoft : dstThroughSoft fs1 df dp = true
+      · simp [hsoft] at h
+      · simp only [hsoft, Bool.false_eq_true, if_false] at h
+        exact ⟨_, _, h, fun h1 => relWF_shift _ (relWF_getRegion (hw g hs hg) S)⟩
     · simp at h
 
 theorem copy_branch_placed {fs1 : FS} (hw1 : WF fs1) {v : Variant} {sf : String} {sp : Path} {df : String} {dp : Path}
@@ -2808,7 +2818,11 @@ theorem deepCopyTo_wf {fs1 : FS} (hw : WF fs1) {g : String} {S : Path} {df : Str
   · rw [← (Prod.mk.inj h).1]; exact hw
   · rename_i hs hg
     split at h
-    · exact placeAt_wf hw (fun h1 => relWF_shift _ (relWF_getRegion (hw g hs hg) S)) h
+    · by_cases hsoft : dstThroughSoft fs1 df dp = true
+      · simp only [hsoft, if_true] at h
+        rw [← (Prod.mk.inj h).1]; exact hw
+      · simp only [hsoft, Bool.false_eq_true, if_false] at h
+        exact placeAt_wf hw (fun h1 => relWF_shift _ (relWF_getRegion (hw g hs hg) S)) h
     · rw [← (Prod.mk.inj h).1]; exact hw
 
 theorem unlink_wf {fs : FS} (hw : WF fs) {f : String} {p : Path} {fs' : FS} (h : unlink fs f p = .ok fs') :
@@ -3230,7 +3244,11 @@ theorem deepCopyTo_lf {fs1 : FS} (hl : LinkFreeFS fs1) {g : String} {S : Path} {
   · rw [← (Prod.mk.inj h).1]; exact hl
   · rename_i hs hg
     split at h
-    · exact placeAt_lf hl (fun h1 => regionLF_shift _ (regionLF_getRegion (hl g hs hg) S)) h
+    · by_cases hsoft : dstThroughSoft fs1 df dp = true
+      · simp only [hsoft, if_true] at h
+        rw [← (Prod.mk.inj h).1]; exact hl
+      · simp only [hsoft, Bool.false_eq_true, if_false] at h
+        exact placeAt_lf hl (fun h1 => regionLF_shift _ (regionLF_getRegion (hl g hs hg) S)) h
     · rw [← (Prod.mk.inj h).1]; exact hl
 
 theorem unlink_lf {fs : FS} (hl : LinkFreeFS fs) {f : String} {p : Path} {fs' : FS} (h : unlink fs f p = .ok fs') :
@@ -3456,4 +3474,5 @@ theorem list_exact_history (v : Variant) (ops : List Op) (hops : ∀ op ∈ ops,
     p ∈ listCoolers (run v [] ops) f ↔ isCooler (run v [] ops) f p = true :=
   list_exact hg (run_wf v ops [] wf_nil f h hg)
     (run_lf v ops [] (fun f h hg => absurd hg (by simp [getFile])) hops f h hg) p
+
 end Cooler.C15
